@@ -9,7 +9,9 @@
 From Common Require Import Bytes.
 From Common Require Blake2b.
 From Hash Require XXHash Keccak Sha2 ProofsHash.
-From C29 Require Import Model ModelField ModelEd25519 ModelSecp256k1 ModelHost Proofs ProofsSig ProofsProps.
+From Hash Require Import Strobe.
+From C29 Require Import Model ModelField ModelEd25519 ModelSecp256k1 ModelHost ModelSr25519
+  Proofs ProofsSig ProofsProps ProofsSr25519 ProofsPropsSr.
 Local Open Scope Z_scope.
 
 (* every helper returns a digest of its advertised size, for every input *)
@@ -185,6 +187,103 @@ Theorem C29_host_ecdsa_refuted :
 Proof. exact host_ecdsa_refuted_all. Qed.
 Print Assumptions C29_host_ecdsa_refuted.
 
+(* ---- sr25519.  The reference is Substrate's pair of verifiers written out in Gallina
+   (ristretto255 RFC 9496, Merlin/STROBE-128 over the Keccak permutation, schnorrkel's transcripts;
+   validated by the RFC vectors, the Merlin vectors, a signature made by the Rust schnorrkel and
+   the two schnorrkel-0.1.1 vectors of sp_core's unit tests: Hash/Strobe.v, C29/VectorsSr25519.v).
+   The model of gossamer is the repaired code (fixes/C29-sr25519-{1,2,3,4}-*.patch), which is a
+   transliteration of schnorrkel's verification; so its agreement with the reference, for every
+   input, is a statement about two definitions of the same shape -- what ties it to the Go code is
+   the correspondence run. *)
+Theorem C29_sr25519_agrees : forall pk sig msg : list byte,
+  accepts (sr25519_verify_signature pk sig msg) = sr25519_verify_ref pk msg sig
+  /\ accepts (sr25519_verify_deprecated pk sig msg) = sr25519_verify_deprecated_ref pk msg sig
+  /\ host_sr25519_verify_v2 pk msg sig = sr25519_verify_ref pk msg sig
+  /\ host_sr25519_verify_v1 pk msg sig = sr25519_verify_deprecated_ref pk msg sig.
+Proof. exact sr25519_agrees_all. Qed.
+Print Assumptions C29_sr25519_agrees.
+
+(* sr25519 rejection rules of the reference, for all inputs: an accepted signature has a 32-byte
+   key that is a ristretto255 encoding, 64 bytes, the schnorrkel marker bit, a canonical scalar,
+   and its R half is the ristretto255 encoding of [s]B - [k]A; verify_deprecated needs no marker
+   bit, coincides with verify on marked signatures and accepts whatever verify accepts; the
+   repaired VerifySignature reports an error exactly for malformed input; a decodable key is a
+   canonical, non-negative field element *)
+Theorem C29_sr25519_rules : forall pk msg sig : list byte,
+  (sr25519_verify_ref pk msg sig = true ->
+     length pk = 32%nat /\ length sig = 64%nat /\ sr_marked sig = true /\ sr_scalar sig < ed_L
+     /\ exists A, ristretto_decode pk = Some A
+        /\ ristretto_encode (sr_rprime A (sr_challenge (signing_transcript msg) labels_current pk (firstn 32 sig))
+                                         (sr_scalar sig)) = firstn 32 sig)
+  /\ (sr25519_verify_deprecated_ref pk msg sig = true ->
+     length pk = 32%nat /\ length sig = 64%nat /\ sr_scalar sig < ed_L /\ ristretto_decode pk <> None)
+  /\ (sr_marked sig = true -> sr25519_verify_deprecated_ref pk msg sig = sr25519_verify_ref pk msg sig)
+  /\ (sr_marked sig = false -> sr25519_verify_ref pk msg sig = false)
+  /\ (sr25519_verify_ref pk msg sig = true -> sr25519_verify_deprecated_ref pk msg sig = true)
+  /\ (sr25519_verify_signature pk sig msg = VErr <->
+      (length pk <> 32%nat \/ ristretto_decode pk = None \/ length sig <> 64%nat
+       \/ sr_marked sig = false \/ ed_L <= sr_scalar sig))
+  /\ (forall P, ristretto_decode pk = Some P ->
+      Z.of_N (le_val pk) < p25519 /\ Z.odd (Z.of_N (le_val pk)) = false).
+Proof. exact sr25519_rules_all. Qed.
+Print Assumptions C29_sr25519_rules.
+
+(* the code as found violated the property in five ways (evaluated witnesses; the definitions
+   ..._prefix model lib/crypto/sr25519 over go-schnorrkel v1.1.0 and the two host functions
+   before the repair): VerifyDeprecated rejected the schnorrkel-0.1.1 vector of sp_core's unit
+   test verify_from_old_wasm_works and accepted a current-scheme signature without marker bit;
+   Verify refused the identity key; ext_crypto_sr25519_verify_version_1 accepted a signature over
+   another message -- its answer depended on the key alone; version 2 accepted a forged signature
+   under the all-zero key *)
+Theorem C29_sr25519_prefix_refuted :
+  (exists pk msg sig, sr25519_verify_deprecated_ref pk msg sig = true
+                      /\ sr25519_verify_deprecated_prefix pk sig msg = VFail)
+  /\ (exists pk msg sig, sr25519_verify_deprecated_ref pk msg sig = false
+                         /\ sr25519_verify_deprecated_prefix pk sig msg = VOk)
+  /\ (exists pk msg sig, sr25519_verify_ref pk msg sig = true
+                         /\ sr25519_verify_signature_prefix pk sig msg = VErr)
+  /\ (exists pk msg sig, sr25519_verify_deprecated_ref pk msg sig = false
+                         /\ host_sr25519_verify_v1_prefix pk msg sig = true)
+  /\ (forall pk msg sig msg' sig',
+        host_sr25519_verify_v1_prefix pk msg sig = host_sr25519_verify_v1_prefix pk msg' sig')
+  /\ (exists pk msg sig, sr25519_verify_ref pk msg sig = false
+                         /\ host_sr25519_verify_v2_prefix pk msg sig = true).
+Proof. exact sr25519_prefix_refuted_all. Qed.
+Print Assumptions C29_sr25519_prefix_refuted.
+
+(* Merlin / STROBE: the loops of the transcript model never end by running out of fuel (any
+   fuel above the number of bytes gives the same state), the duplex position stays inside the
+   rate through every operation and every transcript the verifiers build, the permutation
+   returns 200 bytes *)
+Theorem C29_merlin_wellformed :
+  (forall fuel s d, wf s -> (length d < fuel)%nat -> absorb fuel s d = absorb (S (length d)) s d)
+  /\ (forall s d, wf s -> wf (meta_ad s d) /\ wf (ad s d))
+  /\ (forall fuel s n acc, wf s -> wf (snd (squeeze fuel s n acc)))
+  /\ (forall label, wf (transcript_new label))
+  /\ (forall msg, wf (signing_transcript msg) /\ wf (preaudit_transcript msg))
+  /\ (forall s, length (f1600_bytes s) = 200%nat).
+Proof. exact merlin_fuel_all. Qed.
+Print Assumptions C29_merlin_wellformed.
+
+(* the key-recovery host functions version by version: gossamer's two versions are one function,
+   which is Substrate's version 2 (strict parsing); Substrate's version 1 reduces r and s modulo n
+   instead: the two agree whenever r, s < n, version 1 recovers whatever version 2 recovers, and
+   there is a signature with r >= n from which version 1 recovers a key while gossamer (both
+   versions) reports an error -- known finding ecdsa-recover-v1-strict, guard
+   host_recover_v1_guard.  RecoverPublicKey's in-place "sig[64] -= 27" reaches guest memory
+   exactly for ids >= 27. *)
+Theorem C29_host_recover_versions :
+  (forall msg sig : list byte,
+     host_recover msg sig = option_map key_xy (substrate_recover_v2 msg sig)
+     /\ host_recover_compressed msg sig = option_map serialize_compressed (substrate_recover_v2 msg sig)
+     /\ (host_recover_v1_guard sig = false -> substrate_recover_v1 msg sig = substrate_recover_v2 msg sig)
+     /\ (forall q, substrate_recover_v2 msg sig = Some q -> substrate_recover_v1 msg sig = Some q)
+     /\ (host_recover_mutates sig = true <-> (27 <= b2n (nth 64 sig Byte.x00))%N))
+  /\ (exists msg sig q, host_recover_v1_guard sig = true /\ substrate_recover_v1 msg sig = Some q
+                        /\ substrate_recover_v2 msg sig = None /\ host_recover_compressed msg sig = None).
+Proof. exact host_recover_versions_all. Qed.
+Print Assumptions C29_host_recover_versions.
+
 (* non-vacuity: the accepting branches of the rule theorems are inhabited (ZIP-215 small-order
    vector; an honest libsecp256k1 signature at the library and at the host level).  The RFC 8032
    vectors, recovery vectors and the high-S twin are evaluated in C29/Vectors.v. *)
@@ -193,3 +292,7 @@ Example C29_nonvacuous :
   /\ (exists pk msg sig, secp256k1_verify_signature pk sig msg = true)
   /\ (exists pk msg sig, host_ecdsa_verify pk msg sig = true).
 Proof. exact nonvacuous_all. Qed.
+Example C29_sr25519_nonvacuous :
+  (exists pk msg sig, sr25519_verify_ref pk msg sig = true /\ sr25519_verify_signature pk sig msg = VOk)
+  /\ (exists pk msg sig, sr_marked sig = false /\ sr25519_verify_deprecated_ref pk msg sig = true).
+Proof. exact sr25519_nonvacuous_all. Qed.
